@@ -92,6 +92,19 @@ def step (st : State) (toks : List Val) (impl : String) : State × Out :=
     let st' := some (St.sync { s with m := m', sp := sp' })
     let tags := ["add." ++ posTag i s.m.slice.length, if s.m.slice.contains v then "add.dup" else "add.fresh"]
     (st', { model := toString i, spec := if total s.id then some (toString j) else none, tags := tags })
+  | [.w "addpanic", .i v, .i _k], some s =>
+    -- Add with a less function that panics on its k-th call, recovered by the caller (judged in the harness: still sorted, the old multiset with or
+    -- without v); the judge follows: `nopanic i` is an ordinary Add, `panicked 1` leaves v in, `panicked 0` leaves the contents alone
+    if impl.startsWith "nopanic " then
+      let (m', i) := s.m.add v
+      let (sp', j) := Spec.Sorted.add s.m.less s.sp v
+      (some (St.sync { s with m := m', sp := sp' }),
+       { model := "nopanic " ++ toString i, spec := if total s.id then some ("nopanic " ++ toString j) else none, tags := ["addpanic.nopanic"] })
+    else if impl == "panicked 1" then
+      let (m', _) := s.m.add v
+      let (sp', _) := Spec.Sorted.add s.m.less s.sp v
+      (some (St.sync { s with m := m', sp := sp' }), { model := "panicked 1", spec := some "panicked 1", tags := ["addpanic.in"] })
+    else (some s, { model := "panicked 0", spec := some "panicked 0", tags := ["addpanic.out"] })
   | [.w "remove", .i v], some s =>
     let (m', i) := s.m.remove v
     let (sp', j) := Spec.Sorted.remove s.sp v
